@@ -73,3 +73,27 @@ META["C10"] = {
     "level_note": "peer behaviours are drawn from a fixed list of 11 fault kinds; peer order is shuffled by drand's own math/rand (sampled, not enumerated)",
     "technique": "runtime monitoring under injected peer faults: base-store tap oracle (validity, order) + bounded-convergence oracle + differential check of CheckPastBeacons against inflicted damage",
 }
+META["C09"] = {
+    "level": "exploration",
+    "level_text": "a matrix of gossip packets (5 types x claimed sender x signing key x victim role x single-field mutation, >3000 cells quick) sent to real dkg.Process instances in states prepared by real commands and a real DKG; a cell is a violation when the victim's dkg.db changes on a packet the harness knows is not authentic; every cell has a positive control (the untouched honest packet is accepted)",
+    "level_note": "authenticity is the harness's own bookkeeping of who signed what with which key; success-without-state-change (dedupe) is counted, not flagged",
+    "technique": "runtime monitoring: forged/mutated packet matrix against real DKG processes with a raw-database diff oracle and positive controls",
+}
+META["C14"] = {
+    "level": "exploration",
+    "level_text": "structured hostile requests on every peer-facing and public endpoint (gRPC over loopback against a daemon in a child process, HTTP, and dkg.Process directly) in several node states; after each request probes on the same and another service must return; process death is read from the child's exit, 'wedged' only with a goroutine dump showing the parked drand frame",
+    "level_note": "panics contained by the gRPC recovery interceptor are counted, not flagged; input classes are generated, not exhaustive",
+    "technique": "runtime monitoring: hostile-input generators against a child-process daemon with liveness probes and goroutine-dump oracle; race detector on the routing tables",
+}
+META["C15"] = {
+    "level": "exploration",
+    "level_text": "every protobuf message crossing loopback (client interceptors), HTTP bodies/headers, backup file, debug log and error strings produced by a 3-daemon DKG + reshare + sync + hostile subset were scanned for every node's secret scalars in 8 encodings; every file containing one was owner-only at each persistence hook; canaries prove each channel's scanner",
+    "level_note": "secrecy only over the outputs this workload produced; encodings searched are a fixed list",
+    "technique": "runtime monitoring: secret-scanner taps on wire, HTTP, logs, backups and files (hooks + strace) with canary self-test",
+}
+META["C19"] = {
+    "level": "exploration",
+    "level_text": "the full (id-kind x hash-kind x endpoint) matrix on a daemon running three chains, before/during/after stop and reload of one chain, with answers attributed to a chain by whose key verifies / whose parameters appear; the -race run targets the routing tables during concurrent stop/load",
+    "level_note": "1-of-1 groups loaded through the daemon's migration path stand for DKG-produced chains; lenient where the statement is silent (known id + unknown hash)",
+    "technique": "runtime monitoring: request matrix with attribution oracle over loopback gRPC/HTTP; Go race detector anchored on routing-table state",
+}
